@@ -162,7 +162,7 @@ func c16GovProperty(t *rapid.T) {
 	}
 	status := snapshot()
 	forbidden := map[string]bool{}
-	steps, concurrent, withdrawn, restarted := 0, 0, 0, false
+	steps, concurrent, withdrawn, usedLoggedOut, restarted := 0, 0, 0, 0, false
 	ops = append(ops, fmt.Sprintf("gov world audit=%v statuses=%v", audit, status))
 	var open []string // proposal ids that may still be open
 	afterBlock := func(touched map[string]bool, what string) {
@@ -347,6 +347,48 @@ func c16GovProperty(t *rapid.T) {
 			ops = append(ops, fmt.Sprintf("block %d: %s", w.N.Height(), what))
 			afterBlock(touched, what)
 		},
+		"use-logged-out": func(t *rapid.T) {
+			// a role that was logged out never becomes usable again: its votes (also on proposals that were opened while
+			// it was still an elector) and its governance operations are refused and change nothing
+			var gone []*govObj
+			var other *govObj
+			for _, o := range objs {
+				if o.kind == "role" && status["role:"+o.id] == "forbidden" {
+					gone = append(gone, o)
+				} else if o.kind == "role" {
+					other = o
+				}
+			}
+			if len(gone) == 0 {
+				t.Skip("no logged-out role")
+			}
+			o := gone[rapid.IntRange(0, len(gone)-1).Draw(t, "loggedOut")]
+			k := keyOf[o.id]
+			var txs []pb.Transaction
+			var names []string
+			for _, pid := range open {
+				txs = append(txs, w.VoteTx(k, pid, rapid.Bool().Draw(t, "ballot")))
+				names = append(names, "vote on "+pid)
+			}
+			if other != nil {
+				txs = append(txs, w.BVM(k, constant.RoleContractAddr, "FreezeRole", pb.String(other.id), pb.String("r")))
+				names = append(names, "FreezeRole "+other.name)
+			}
+			txs = append(txs, w.BVM(k, constant.NodeManagerContractAddr, "LogoutNode", pb.String(sim.KeyFor(sim.GovNodes[0]).Addr.String()), pb.String("r")))
+			names = append(names, "LogoutNode "+sim.GovNodes[0])
+			txs = append(txs, w.BVM(k, constant.RoleContractAddr, "ActivateRole", pb.String(o.id), pb.String("r")))
+			names = append(names, "ActivateRole of itself")
+			rs := w.Block(txs...)
+			what := fmt.Sprintf("logged-out role %s tries %d operations", o.name, len(txs))
+			ops = append(ops, fmt.Sprintf("block %d: %s", w.N.Height(), what))
+			for i, r := range rs {
+				if r.IsSuccess() {
+					f.fail("role %s was logged out (forbidden) but its operation %q in block %d succeeded", o.name, names[i], w.N.Height())
+				}
+			}
+			usedLoggedOut++
+			afterBlock(map[string]bool{}, what)
+		},
 		"restart": func(t *rapid.T) {
 			ops = append(ops, "restart")
 			w.N.Reopen()
@@ -368,6 +410,9 @@ func c16GovProperty(t *rapid.T) {
 	}
 	if restarted {
 		classes = append(classes, "gov:restart")
+	}
+	if usedLoggedOut > 0 {
+		classes = append(classes, "gov:logged-out-role-tries-to-act")
 	}
 	nt := ""
 	if steps >= 3 {
